@@ -95,7 +95,7 @@ class C03(Prop):
         for cfg in sessions:
             cfg["timeout_ns"] = rng.choice([200_000_000, 500_000_000])
         agent["time_window"] = rng.random() < 0.7
-        return {"flavour": flavour, "agent": agent, "sessions": sessions, "ops": ops, "scripts": scripts, "latency_ns": gen.latency(rng, 1000, 2_000_000), "ready_order_seed": rng.randrange(2**31), "poison": rng.randrange(256), "rx_tail": rng.choice(["poison", "keep"]), "sched_seed": rng.randrange(2**31), "yield_p": rng.choice([0.1, 0.3, 0.6]), "share_objects": rng.random() < 0.3}
+        return {"flavour": flavour, "agent": agent, "sessions": sessions, "ops": ops, "scripts": scripts, "latency_ns": gen.latency(rng, 1000, 2_000_000), "ready_order_seed": rng.randrange(2**31), "poison": rng.randrange(256), "rx_tail": rng.choice(["poison", "keep"]), "sched_seed": rng.randrange(2**31), "yield_p": rng.choice([0.1, 0.3, 0.6]), "share_objects": rng.random() < 0.3, "send_errors": ({"%d:1" % rng.randint(1, max(1, opid)): rng.choice([1, 105, 101, 111]) for _ in range(rng.randint(1, 2))} if rng.random() < 0.2 else {})}
 
     def check(self, run):
         out = []
